@@ -6,7 +6,10 @@
 import FileD.Lemmas.Join
 import FileD.Lemmas.JoinTemplate
 import FileD.Lemmas.JoinStreams
+import FileD.Lemmas.K8sMultiline
 namespace FileD.PropsC15
+
+section JoinPart
 open FileD FileD.Join FileD.SpecC15
 
 /-- **join = group into maximal runs, concatenate.** For every configuration (field path,
@@ -123,5 +126,125 @@ theorem no_cross_stream_merge_needs_coherence :
   simp [run, step, doEvent, logCfg, JTree.dig, JTree.lookup, JTree.isStr, flushThen, flush, isNextOK,
     appendBuff, downstream, Out.down, St.init, Ev.out, spec, segs, classify, openRun, takeOrphans, emit,
     joined, joinedValue, value, fits, setPath, setFirst, asString, tagOf] at this
+
+end JoinPart
+
+section K8sPart
+open FileD FileD.K8s FileD.SpecC15K8s
+open FileD.Join (Res)
+
+/-- **k8s multiline = group chunks into lines, concatenate** (the tree after the `fix:`
+    commits). For every configuration with `max_event_size` 0 or ≥ 4 (skip and cut mode, any
+    `split_event_size`), every call sequence of one stream — string chunks with ANY quoted
+    escaped text, events whose `log` is absent or not a string, time-outs anywhere — the
+    plugin answers every call exactly as the line-grouping spec says: chunks of an unfinished
+    line are collapsed, the chunk that ends it (escaped newline with an unescaped backslash, or
+    the split look-ahead) passes with `log` = quote(concatenation of the contents), an over-limit
+    line is dropped (skip) or cut to `max-3` content bytes + newline and marked (cut). -/
+theorem k8s_chunks_eq_spec (cfg : Cfg) (hl : LimitOK cfg) (items : List In) (hq : quotedItems items) :
+    (run cfg St.init items).outs = specK cfg Line.empty items ∧
+    ∃ st, (run cfg St.init items).fin = .ok st :=
+  let h := run_sim cfg hl items St.init Line.empty (rel_init cfg hl) hq
+  ⟨h.1, h.2.choose, h.2.choose_spec.1⟩
+
+-- non-vacuity: "ab" + "" + "c\n" (three chunks) is one event "abc\n"; then "x\\n" (backslash, n)
+-- does NOT end a line, "y\n" does
+example :
+    let cfg : Cfg := ⟨1000000, 0, false, false⟩
+    let ch (c : Bytes) : In := .ev ⟨0, 10, .str (quote c)⟩
+    specK cfg Line.empty [ch [97, 98], ch [], ch [99, 92, 110], ch [120, 92, 92, 110], ch [121, 92, 110]] =
+      [collapse false, collapse false, ⟨.pass, some (quote [97, 98, 99, 92, 110]), false, false⟩,
+       collapse false, ⟨.pass, some (quote [120, 92, 92, 110, 121, 92, 110]), false, false⟩] := by
+  decide
+
+/-- **no event content can make the plugin panic or exit** (after the fixes): for every log
+    value — absent, number / bool / null / object / array, the empty string, any quoted text —
+    every time-out placement and every limit setting covered by `LimitOK`, no call panics. -/
+theorem k8s_total (cfg : Cfg) (hl : LimitOK cfg) (items : List In) (hq : quotedItems items) (p : Panic) :
+    (run cfg St.init items).fin ≠ .error p := by
+  obtain ⟨_, st, hst⟩ := k8s_chunks_eq_spec cfg hl items hq
+  rw [hst]; intro h; cases h
+
+example : quotedItems [In.ev ⟨0, 1, .str (quote [])⟩, .ev ⟨0, 1, .nonString⟩, .ev ⟨0, 1, .absent⟩, .timeout 0] ∧
+    LimitOK ⟨1000000, 8, true, true⟩ := by
+  refine ⟨⟨by simp [Quoted, inner_quote], trivial⟩, Or.inr (by decide)⟩
+
+/-- the partial chunks of ONE container line become ONE event and no byte is lost: with no
+    size limit in the way, `n` chunks that do not end the line followed by the chunk that does
+    are answered collapse × n, then pass with `log` = quote(all contents in order). -/
+theorem k8s_line_joined (cfg : Cfg) (hm : cfg.maxSize = 0) (cs : List (Nat × Bytes)) (lastSize : Nat)
+    (last : Bytes) (hne : ∀ p ∈ cs, contentEndsLine p.2 = false) (hend : contentEndsLine last = true)
+    (hsz : (((cs.map (·.1)).sum + lookahead : Nat) : Int) ≤ cfg.splitSize) :
+    (run cfg St.init (cs.map (fun p => In.ev ⟨0, p.1, .str (quote p.2)⟩) ++
+        [In.ev ⟨0, lastSize, .str (quote last)⟩])).outs =
+      cs.map (fun _ => collapse false) ++
+        [⟨.pass, some (quote ((cs.map (·.2)).flatten ++ last)), false, false⟩] := by
+  have hq : quotedItems (cs.map (fun p => In.ev ⟨0, p.1, .str (quote p.2)⟩) ++
+      [In.ev ⟨0, lastSize, .str (quote last)⟩]) := by
+    induction cs with
+    | nil => exact ⟨quoted_quote last, trivial⟩
+    | cons p r ih =>
+      exact ⟨quoted_quote p.2, ih (fun q hq => hne q (by simp [hq]))
+        (by simp only [List.map_cons, List.sum_cons] at hsz; omega)⟩
+  rw [(k8s_chunks_eq_spec cfg (Or.inl hm) _ hq).1]
+  rw [specK_partials cfg hm cs Line.empty rfl _ hne (by simpa [Line.empty] using hsz)]
+  simp [specK, specStep, Line.empty, endsLine, inner_quote, hend, Line.content]
+
+example : contentEndsLine [100, 92, 110] = true ∧ contentEndsLine [100, 92, 92, 110] = false ∧
+    contentEndsLine [] = false := by decide
+
+/-- **an idle instance is a fresh instance**: whenever a call is answered pass or discard (the
+    processor may then move the instance to another stream) the plugin state is exactly the
+    state after `Start` — nothing buffered, no skip flag — so nothing of one stream's line can
+    leak into the next stream's. (Before fix 44d51a6 `skipNextEvent` survived a time-out.) -/
+theorem k8s_idle_is_fresh (cfg : Cfg) (hl : LimitOK cfg) (items : List In) (x : In)
+    (hq : quotedItems (items ++ [x])) (st st' : St) (o : Out)
+    (hrun : (run cfg St.init items).fin = .ok st) (hstep : step cfg st x = .ok (st', o))
+    (hres : o.res = .pass ∨ o.res = .discard) : st' = St.init := by
+  obtain ⟨hqi, hqx⟩ := quotedItems_append hq
+  obtain ⟨_, st0, hst0, hrel⟩ := run_sim cfg hl items St.init Line.empty (rel_init cfg hl) hqi
+  rw [hrun] at hst0
+  cases hst0
+  obtain ⟨st1, hs1, hr1⟩ := step_sim cfg hl st _ hrel x (quotedItems_cons hqx).1
+  rw [hstep] at hs1
+  cases hs1
+  rw [specStep_closes cfg _ x hres] at hr1
+  exact rel_empty_init hr1
+
+/-- FULL STATEMENT for the "keeps every byte" clause (no size limit): the content bytes of all
+    string chunks that went in are the content bytes of the passed events plus what is still
+    buffered. FALSE of the code: see the counterexample. -/
+def K8sKeepsEveryByte : Prop :=
+  ∀ (cfg : Cfg) (items : List In), cfg.maxSize = 0 → quotedItems items →
+    ∀ st, (run cfg St.init items).fin = .ok st →
+      contentOut (run cfg St.init items).outs ++ st.eventBuf.drop 1 = contentIn items
+
+/-- it holds whenever no unfinished line is interrupted by a time-out or by an event without a
+    string `log` (`abandons = false`) -/
+theorem k8s_keeps_every_byte_partial (cfg : Cfg) (items : List In) (hm : cfg.maxSize = 0)
+    (hq : quotedItems items) (hab : abandons cfg Line.empty items = false)
+    (st : St) (hst : (run cfg St.init items).fin = .ok st) :
+    contentOut (run cfg St.init items).outs ++ st.eventBuf.drop 1 = contentIn items := by
+  obtain ⟨houts, st0, hst0, hrel⟩ :=
+    run_sim cfg (Or.inl hm) items St.init Line.empty (rel_init cfg (Or.inl hm)) hq
+  rw [hst] at hst0
+  cases hst0
+  obtain ⟨hkeep, hover⟩ := spec_keeps_bytes cfg hm items Line.empty rfl hab
+  obtain ⟨_, h2⟩ := hrel
+  simp only [hover, Bool.false_eq_true, ↓reduceIte] at h2
+  rw [houts, h2.2.2.1]
+  simpa [Line.empty, Line.content] using hkeep
+
+/-- a time-out in the middle of a line loses the buffered chunk: `"a"`, time-out, `"b\n"`
+    outputs only `b\n` (known finding C15-k8s-timeout-drops-partial-line; witness in corpus/C15) -/
+theorem k8s_keeps_every_byte_counterexample : ¬ K8sKeepsEveryByte := by
+  intro h
+  have := h ⟨1000000, 0, false, false⟩
+    [.ev ⟨0, 10, .str [34, 97, 34]⟩, .timeout 0, .ev ⟨0, 10, .str [34, 98, 92, 110, 34]⟩] rfl
+    ⟨rfl, rfl, trivial⟩ St.init rfl
+  revert this
+  decide
+
+end K8sPart
 
 end FileD.PropsC15
